@@ -41,7 +41,8 @@ def rand_value(rng):
     if r < 0.12:
         return MARKER
     if r < 0.2:
-        return rng.choice([0.0, -0.0, 1.0, -1.0, 1e-300, -1e300, 12345.67, -12345.66, -1.33, -20.0])
+        # incl. values close to the marker (-12345.67) but not it: relative distance 1e-6 .. 1e-1, far beyond the 1e-10 of sanity_check
+        return rng.choice([0.0, -0.0, 1.0, -1.0, 1e-300, -1e300, 12345.67, -12345.66, -12345.68, -12346.67, -12000.0, -13000.0, -1.33, -20.0])
     return exact_double(rng, -50, 50)
 
 
@@ -305,10 +306,13 @@ def gen_sentinel(rng, sol, variant='exc', per=2):
         for prov, ovs in groups.items():
             if prov:
                 S.append(['init', q, 'cxx', 'other', prov])
+            # the calls that print (listings of an object without vectors print nothing but a frame): whatever they do to
+            # the output stream, the complaint of the next unprovided evaluator must still appear
+            S += [[rng.choice(['dispv', 'dispp', 'list', 'sanity']), p, 'cxx'] for _ in range(2)]
             for fn, sig in ovs:
                 for _ in range(per):
                     pt = [hexf(exact_double(rng, -3, 3)) for ch in sig if ch == 'S']
-                    S.append(eval_line(p, 'cxx', fn, sig, pt, rng.randint(-1, 5)))
+                    S.append(eval_line(p, 'cxx', fn, sig, pt, rng.choice([-1000000, -2, -1, 0, 1, 2, 3, 4, 5, 1000000])))
         if not e['fixture']:
             S += sweep([('h', sol)], p, None, restore=False)
     return Execution(S, variant=variant, label='sentinel:%s' % sol)
@@ -322,7 +326,7 @@ def gen_catalogue(names, variant='exc'):
     for n in names:
         S = [['printid', 'd'], ['printid', 'ld']]
         e = CAT.get(n)
-        for p in ('d', 'ld'):
+        for p in ('ld', 'd'):        # long double first: the double registry is still empty, nothing can be borrowed from it
             S.append(['init', p, 'cxx', 'cat', n])
             S += [['name', p, 'cxx'], ['dim', p, 'cxx']]
             if p == 'd':        # the same two questions through the C interface (caller-owned buffer, pre-filled by the driver)
